@@ -26,6 +26,9 @@ def run(ctx):
     ctx.not_decided = "'never before the first token that makes the script invalid' for errors detected late (behavioural)."
     scan = R.scan
     cfg = ctx.cfg(scan)
+    # the byte length reported for the offending token is the extent the token rules give it: the rules themselves (L1-L4 of C01)
+    from .c01 import lexer_rules
+    lexer_rules(ctx, R)
 
     # ---- Z1 / Z2 by evaluation ------------------------------------------------------
     ctx.rule("Z1", "no position write between the lexer loop head and the yield")
